@@ -94,6 +94,8 @@ def one(cx, m, route, replay):
         return None
     if snapshot(m) != before:
         cx.witness("to_answer.request_bytes_changed", {"cls": type(m).__name__, "route": route}, replay)
+    for w in cx.mon.take("C20"):      # what the contract on to_answer saw in this call: same replay recipe
+        cx.witness(w["key"], {**w["detail"], "route": route}, replay)
     cx.cov["answer_classes_seen"].append(f"{type(m).__name__}->{type(a).__name__}")
     return a
 
@@ -105,18 +107,38 @@ def run_to_answer(cx, spec, rng):
         R.enc_avp(296, b"example", 0, 0x40)
     codes = sorted(cx.table) + [3, 998, 0xfffffe]
     ids = IDS[:spec["ids"]]
+    only = spec.get("only_code")
     for ci, code in enumerate(codes):
-        if ci % spec["parts"] != spec["part"]:
+        if only is not None:
+            if code != only:
+                continue
+        elif ci % spec["parts"] != spec["part"]:
             continue
         cx.cov["classes"] += 1
         base = cx.table.get(code)
+
+        def generic(tag):
+            # a hand-built generic message bearing this command code: whatever was answered before (and whatever
+            # it leaves behind for later requests of the same code) must not change the class choice
+            g = Message()
+            g.header.command_code = code
+            g.header.application_id = APPS[ci % len(APPS)]
+            g.header.hop_by_hop_identifier = 0x1234 + ci
+            g.header.end_to_end_identifier = 0x4321 + ci
+            g.header.is_request = True
+            g.header.is_proxyable = bool(ci & 1)
+            one(cx, g, "generic-" + tag, {"op": "code_sweep", "code_sweep": code})
+            cx.cov["generic_instances_with_known_code"] = cx.cov.get("generic_instances_with_known_code", 0) + 1
+
+        if ci % 2 == 0:
+            generic("before-typed")
         for fl in range(256):
             for k, ident in enumerate(ids):
                 hbh, e2e = ident, ids[(k + 1) % len(ids)] ^ 0x5a5a
                 app = APPS[(fl + k) % len(APPS)]
                 ver = 1 if (fl + k) % 7 else (fl & 0xff)
                 wire = R.enc_msg(code, app=app, flags=fl, hbh=hbh, e2e=e2e, avps=body, version=ver)
-                rp = {"op": "wire", "wire": wire.hex()}
+                rp = {"op": "wire", "wire": wire.hex(), "code_sweep": code}
                 # route 1: decoded (typed dispatch)
                 try:
                     m = Message.from_bytes(wire)
@@ -144,7 +166,8 @@ def run_to_answer(cx, spec, rng):
                     mc.header.is_error = bool(fl & 0x20)
                     mc.header.is_retransmit = bool(fl & 0x10)
                     mc.header.is_request = True
-                    one(cx, mc, "constructed", {"op": "construct", "cls": cls.__name__, "flags": fl})
+                    one(cx, mc, "constructed", {"op": "construct", "cls": cls.__name__, "flags": fl, "code_sweep": code})
+        generic("after-typed")
         cx.cov["flag_octets_per_class"] = 256
         if len(cx.samples) < 3:
             cx.samples.append({"code": code, "class": base.__name__ if base else "unknown", "flag_octets": 256,
@@ -278,7 +301,11 @@ def run_shard(spec):
 def replay(obj):
     from diameter.message import Message
     cx = Ctx({})
-    if obj.get("op") == "wire":
+    if obj.get("code_sweep") is not None:
+        # the answer-class choice may depend on what was answered before: replay the whole sweep of that code
+        cx = Ctx({"kind": "to_answer"})
+        run_to_answer(cx, {"parts": 1, "part": 0, "ids": 2, "only_code": obj["code_sweep"]}, random.Random(0))
+    elif obj.get("op") == "wire":
         m = Message.from_bytes(bytes.fromhex(obj["wire"]), plain_msg=bool(obj.get("plain")))
         one(cx, m, "replay", obj)
     elif obj.get("op") == "generated":
